@@ -12,6 +12,15 @@ theorem pres_dlDel {s s' : St} {a : Act} (hI : Inv s) (h : step .repaired s a = 
   | fire t0 =>
     simp only [step] at h
     (repeat' (split at h)) <;> (try cases h) <;> (simp only [St.setPc, St.setObj]; first | (have i_dlDel := hI.dlDel; have i_refs := hI.refs; have i_lockA := hI.lockA; grind [dlObj, holdsStore, upd, knowsNil, needsOpen, PC.ref]) | (have i_dlDel := hI.dlDel; have i_dlSt := hI.dlSt; have i_shNil := hI.shNil; have i_lockA := hI.lockA; have i_shOpen := hI.shOpen; have i_refs := hI.refs; have i_stObj := hI.stObj; grind (instances := 4000) [dlObj, holdsStore, upd, knowsNil, needsOpen, PC.ref]))
+  | corrupt d =>
+    simp only [step] at h
+    (repeat' (split at h)) <;> (try cases h) <;> (simp only []; first | (have i_dlDel := hI.dlDel; have i_refs := hI.refs; have i_lockA := hI.lockA; grind [dlObj, holdsStore, upd, knowsNil, needsOpen, PC.ref]) | (have i_dlDel := hI.dlDel; have i_dlSt := hI.dlSt; have i_shNil := hI.shNil; have i_lockA := hI.lockA; have i_shOpen := hI.shOpen; have i_refs := hI.refs; have i_stObj := hI.stObj; grind (instances := 4000) [dlObj, holdsStore, upd, knowsNil, needsOpen, PC.ref]))
+  | block d =>
+    simp only [step] at h
+    (repeat' (split at h)) <;> (try cases h) <;> (simp only []; first | (have i_dlDel := hI.dlDel; have i_refs := hI.refs; have i_lockA := hI.lockA; grind [dlObj, holdsStore, upd, knowsNil, needsOpen, PC.ref]) | (have i_dlDel := hI.dlDel; have i_dlSt := hI.dlSt; have i_shNil := hI.shNil; have i_lockA := hI.lockA; have i_shOpen := hI.shOpen; have i_refs := hI.refs; have i_stObj := hI.stObj; grind (instances := 4000) [dlObj, holdsStore, upd, knowsNil, needsOpen, PC.ref]))
+  | repair d =>
+    simp only [step] at h
+    (repeat' (split at h)) <;> (try cases h) <;> (simp only []; first | (have i_dlDel := hI.dlDel; have i_refs := hI.refs; have i_lockA := hI.lockA; grind [dlObj, holdsStore, upd, knowsNil, needsOpen, PC.ref]) | (have i_dlDel := hI.dlDel; have i_dlSt := hI.dlSt; have i_shNil := hI.shNil; have i_lockA := hI.lockA; have i_shOpen := hI.shOpen; have i_refs := hI.refs; have i_stObj := hI.stObj; grind (instances := 4000) [dlObj, holdsStore, upd, knowsNil, needsOpen, PC.ref]))
   | run t0 =>
     simp only [step] at h
     split at h
